@@ -6,6 +6,7 @@ import (
 	"io"
 	"os"
 	"runtime/debug"
+	"strconv"
 	"strings"
 	"sync"
 	"sync/atomic"
@@ -134,6 +135,14 @@ type hpeer struct {
 }
 
 var blockTimeout = 8 * time.Second
+
+func init() {
+	// the re-run of a session in which a required reply did not arrive uses a much longer wait (set by the parent), so
+	// that a verdict "blocked" never rests on a few seconds of wall clock on a loaded machine
+	if v, err := strconv.Atoi(os.Getenv("C15_BLOCK_TIMEOUT_S")); err == nil && v > 0 {
+		blockTimeout = time.Duration(v) * time.Second
+	}
+}
 
 func nodeID(tag byte, seq uint64) discover.NodeID {
 	var id discover.NodeID
